@@ -897,7 +897,10 @@ class C20:
             def test(ix):
                 p = build(ix)
                 try:
-                    kp.loads(docgen.Doc.from_json(p['docs'][di]).render())
+                    cand = docgen.Doc.from_json(p['docs'][di])
+                    if not cand.consistent():
+                        return False
+                    kp.loads(cand.render())
                 except Exception:
                     return False
                 return still_fails(p)
